@@ -137,7 +137,6 @@ impl Elig {
         Elig { unsupported: v }
     }
     fn ok(&self, data: &[u8]) -> bool {
-        if data.contains(&b'#') { return false; }
         let mut flat: Vec<u8> = Vec::with_capacity(data.len());
         let mut i = 0;
         while i < data.len() {
@@ -579,6 +578,8 @@ fn main() {
         b"a. 1 IN TYPE999 \\# 2 0102\n", b"a. 1 IN TYPE999 \\# 0\n", b"a. 1 IN A \\# 4 01020304\n",
         b"$\xC0\x80 x\n", b"$INCLUDE \xC0\x80\n",
         b"a. 1 IN DS 1 1 1 \xC0\xA0\n", b"a. 1 IN SSHFP 1 1 \xC0\xA0\n", b"a. 1 IN SSHFP 1 1 ab c\n", b"a. 1 IN SSHFP 1 1 a (\n b ) ; x\n",
+        b"a. 1 IN A \\# 4 01 02 0304\n", b"a. 1 IN A \\# 3 01020304\n", b"a. 1 IN TXT \\# 0\n", b"a. 1 IN TXT \\#\n", b"a. 1 IN TXT \\#x\n",
+        b"a. 1 IN MX \\# 65536 00\n", b"a. 1 IN MX \\#\nb. 1 IN A 1.2.3.4\n", b"a. 1 IN MX \"\\#\" 1 00\n", b"a. 1 IN MX \\#( 1 00 )\n",
         b"a. 1 IN OPENPGPKEY AQID\n", b"a. 1 IN OPENPGPKEY AQ== x\n", b"a. 1 IN OPENPGPKEY AQI\n", b"a. 1 IN OPENPGPKEY A=ID\n", b"a. 1 IN OPENPGPKEY AQ (\n ID ) \n",
         b"a. 1 IN OPENPGPKEY\n", b"a. 1 IN OPENPGPKEY A\\081ID BA\\=\\=\n", b"a. 1 IN OPENPGPKEY A\xC3\xA9ID\n",
         b"a. 1 IN SSHFP 1 1\n", b"a. 1 IN SSHFP 256 1 ab\n", b"a. 1 IN SSHFP +1 01 \"ab\" \\097b\n", b"a. 1 IN TLSA 1 1 1 abg\n", b"a. 1 IN TLSA 1 1 1 ab",
@@ -626,6 +627,27 @@ fn main() {
         let mut d = render(&z, &l, &mut r);
         match i % 4 { 0 => {} 1 | 2 => { let p = r.below(d.len() as u64 + 1) as usize; if p < d.len() { d[p] = alpha_byte(&mut r); } } _ => mutate(&mut r, &mut d) }
         totality(&mut out, &el, "model_zone", &d);
+    }
+
+    // ---- RFC 3597 generic record data for the modelled types
+    for _ in 0..150 * scale {
+        let t = *r.pick(&SUPPORTED);
+        let n = r.below(7) as usize;
+        let claimed = if r.chance(1, 6) { n + 1 } else { n };
+        let mut d = format!("a. 1 IN {} \\#", t).into_bytes();
+        sep(&mut d, &layout_of(3), &mut r, false);
+        d.extend_from_slice(claimed.to_string().as_bytes());
+        let digits: Vec<u8> = (0..2 * n).map(|_| *r.pick(b"0123456789abcdefABCDEF")).collect();
+        let mut i = 0;
+        while i < digits.len() {
+            let k = 1 + r.below(4) as usize;
+            sep(&mut d, &layout_of(3), &mut r, false);
+            d.extend_from_slice(&digits[i..(i + k).min(digits.len())]);
+            i += k;
+        }
+        if r.chance(1, 8) { mutate(&mut r, &mut d); }
+        d.push(b'\n');
+        totality(&mut out, &el, "generic_rdata", &d);
     }
 
     // ---- (b) metamorphic
